@@ -4,6 +4,7 @@ package c19
 
 import (
 	"encoding/json"
+	"encoding/xml"
 	"fmt"
 	"os"
 	"sort"
@@ -41,6 +42,8 @@ type Case struct {
 	// index (len(Steps) = after the last step).  The history is run once without and once
 	// with these restarts; the observable reply sequences must agree.
 	Restarts []int `json:"restarts,omitempty"`
+	// Opts varies the samlidp.Options fields no clause mentions (URL, Key/Signer, certificate, login template).
+	Opts idpsrv.Opts `json:"opts,omitempty"`
 }
 
 const sessionLifetime = time.Hour // documented lifetime of a samlidp session (cookie Max-Age = 3600)
@@ -54,9 +57,8 @@ func excludeStale() bool { return os.Getenv("VERIF_EXCLUDE_STALE_REGISTRY") == "
 // ---------------------------------------------------------------- reference model
 
 type mUser struct {
-	pw      int // index into idpsrv.Passwords, -1 = no password, -2 = unknown
-	profile int // -1 = unknown
-	hash    string
+	pw      int // index into idpsrv.Passwords, -1 = no password
+	profile int
 }
 
 type mSession struct {
@@ -69,13 +71,20 @@ type mSession struct {
 
 type mShortcut struct {
 	entity string
+	relay  int  // 0 = none, else index into idpsrv.RelayStates
+	suffix bool // url_suffix_as_relay_state
 }
 
+// model is the executable reference.  Its state changes as the REQUESTS say: a management
+// request answered with success has the documented effect, a request answered with an error
+// status has none - whatever the implementation did to its store.  The store log is only
+// used for the clauses about what is stored (hashes, sessions written, no write behind an
+// error reply) and to know where faults were injected.
 type model struct {
 	users     map[string]*mUser
-	services  map[string]int // name -> metadata variant (-1: unrecognised)
+	services  map[string]int // name -> metadata variant
 	shortcuts map[string]mShortcut
-	sessions  map[string]*mSession
+	sessions  map[string]*mSession // by the id handed out in the session cookie
 	now       time.Time
 	// stale-registry class seen (for the exclusion switch and the classes)
 	staleClass bool
@@ -97,7 +106,7 @@ func entityOfVariant(v int) string {
 	return idpsrv.Entities[idpsrv.Variants[v].Entity]
 }
 
-// registrations returns the metadata variants of the stored services with this entity ID.
+// registrations returns the metadata variants of the registered services with this entity ID.
 func (m *model) registrations(entity string) []int {
 	var names []string
 	for n := range m.services {
@@ -113,113 +122,119 @@ func (m *model) registrations(entity string) []int {
 	return out
 }
 
-func profileOfUser(u *samlidp.User) int {
-	for v := 0; v < 3; v++ {
-		p := idpsrv.ProfileOf(u.Name, v)
-		if u.Email == p.Email && u.CommonName == p.CommonName && u.Surname == p.Surname && u.GivenName == p.GivenName &&
-			u.ScopedAffiliation == p.ScopedAffiliation && strings.Join(u.Groups, ",") == strings.Join(p.Groups, ",") {
-			return v
-		}
+func shortcutOfStep(s Step) mShortcut {
+	sc := mShortcut{entity: idpsrv.Entities[clampI(s.Issuer, len(idpsrv.Entities))], suffix: s.Suffix == "y"}
+	if s.Relay > 0 {
+		sc.relay = clampI(s.Relay, len(idpsrv.RelayStates))
 	}
-	return -1
+	return sc
 }
 
-// absorb applies the successful store mutations of one step to the model.  The store
-// wrapper is harness-owned: what passed through it is what "is stored".
-func (m *model) absorb(s Step, log []idpsrv.OpRec, credsUser string, credsOK bool) (sessionPuts []string) {
+// seed applies a direct store write of the harness (initial state, seed_user steps).
+func (m *model) seed(s Step) {
+	switch s.Op {
+	case "seed_user":
+		pw := s.Pw
+		if pw >= len(idpsrv.LowCostHashes) {
+			pw = -1
+		}
+		m.users[s.Name] = &mUser{pw: pw, profile: s.Profile}
+	case "put_service":
+		if s.MD >= 0 && s.MD < len(idpsrv.Variants) {
+			m.services[s.Name] = s.MD
+		}
+	case "put_shortcut":
+		m.shortcuts[s.Name] = shortcutOfStep(s)
+	}
+}
+
+// apply gives a management request its documented effect - if and only if it was answered
+// with success.  sessionID is the id a del_session request named.
+func (m *model) apply(s Step, status int, sessionID string) {
+	if status < 200 || status > 299 {
+		return // an error reply means: nothing happened
+	}
+	switch s.Op {
+	case "put_user":
+		if s.Bad {
+			return
+		}
+		nu := &mUser{pw: -1, profile: s.Profile}
+		if s.Pw >= 0 {
+			nu.pw = clampI(s.Pw, len(idpsrv.Passwords)) // "If the PlaintextPassword field is present then it is hashed and stored"
+		} else if old := m.users[s.Name]; old != nil {
+			nu.pw = old.pw // "... not present then HashedPassword retains its stored value"
+		}
+		m.users[s.Name] = nu
+		m.touchedUsers[s.Name] = true
+	case "del_user":
+		if m.users[s.Name] != nil {
+			m.touchedUsers[s.Name] = true
+		}
+		// sessions of the user stay: the property ties an assertion to "a stored, unexpired
+		// session created by such a login", not to the user record still existing
+		delete(m.users, s.Name)
+	case "put_service":
+		if s.Bad || s.MD < 0 || s.MD >= len(idpsrv.Variants) {
+			return
+		}
+		if old, ok := m.services[s.Name]; ok {
+			m.touchedEntities[entityOfVariant(old)] = true
+			m.touchedEntities[entityOfVariant(s.MD)] = true
+			if entityOfVariant(old) != entityOfVariant(s.MD) {
+				m.staleClass = true
+			}
+		}
+		m.services[s.Name] = s.MD
+	case "del_service":
+		if old, ok := m.services[s.Name]; ok {
+			m.touchedEntities[entityOfVariant(old)] = true
+			delete(m.services, s.Name)
+			if len(m.registrations(entityOfVariant(old))) > 0 {
+				m.staleClass = true
+			}
+		}
+	case "put_shortcut":
+		if s.Bad {
+			return
+		}
+		if _, ok := m.shortcuts[s.Name]; ok {
+			m.touchedShortcuts[s.Name] = true
+		}
+		m.shortcuts[s.Name] = shortcutOfStep(s)
+	case "del_shortcut":
+		if _, ok := m.shortcuts[s.Name]; ok {
+			m.touchedShortcuts[s.Name] = true
+		}
+		delete(m.shortcuts, s.Name)
+	case "del_session":
+		if ms := m.sessions[sessionID]; ms != nil && !ms.deleted {
+			ms.deleted = true
+			m.touchedSessions[sessionID] = true
+		}
+	}
+}
+
+// scanLog reads the store log of one step: injected faults, session records written,
+// and whether anything was written or removed at all.
+func (m *model) scanLog(log []idpsrv.OpRec) (sessionPuts []string, mutated []string, fault bool) {
 	for _, op := range log {
 		if op.Fault != "" {
 			m.faultSeen = true
+			fault = true
 			continue
 		}
 		if op.Err {
 			continue
 		}
-		switch {
-		case op.Op == "put" && strings.HasPrefix(op.Key, "/users/"):
-			name := strings.TrimPrefix(op.Key, "/users/")
-			var u samlidp.User
-			_ = json.Unmarshal([]byte(op.Value), &u)
-			u.Name = name
-			nu := &mUser{pw: -2, profile: profileOfUser(&u), hash: string(u.HashedPassword)}
-			old := m.users[name]
-			switch {
-			case s.Op == "put_user" && s.Name == name && s.Pw >= 0:
-				// documented: "If the PlaintextPassword field is present then it is hashed and
-				// stored" - the password this request carried IS the current password from now
-				// on, whatever the implementation chose to store
-				nu.pw = s.Pw
-			case len(u.HashedPassword) == 0:
-				nu.pw = -1
-			case old != nil && old.hash == nu.hash:
-				nu.pw = old.pw
-			}
-			for i, h := range idpsrv.LowCostHashes {
-				if nu.hash == h {
-					nu.pw = i
-				}
-			}
-			m.users[name] = nu
-			m.touchedUsers[name] = true
-		case op.Op == "delete" && strings.HasPrefix(op.Key, "/users/"):
-			name := strings.TrimPrefix(op.Key, "/users/")
-			if m.users[name] != nil {
-				m.touchedUsers[name] = true
-			}
-			delete(m.users, name)
-		case op.Op == "put" && strings.HasPrefix(op.Key, "/services/"):
-			name := strings.TrimPrefix(op.Key, "/services/")
-			var svc samlidp.Service
-			_ = json.Unmarshal([]byte(op.Value), &svc)
-			v := idpsrv.VariantOfMetadata(&svc.Metadata)
-			if old, ok := m.services[name]; ok {
-				m.touchedEntities[entityOfVariant(old)] = true
-				m.touchedEntities[entityOfVariant(v)] = true
-				if entityOfVariant(old) != entityOfVariant(v) {
-					m.staleClass = true
-				}
-			}
-			m.services[name] = v
-		case op.Op == "delete" && strings.HasPrefix(op.Key, "/services/"):
-			name := strings.TrimPrefix(op.Key, "/services/")
-			if old, ok := m.services[name]; ok {
-				m.touchedEntities[entityOfVariant(old)] = true
-				delete(m.services, name)
-				if len(m.registrations(entityOfVariant(old))) > 0 {
-					m.staleClass = true
-				}
-			}
-		case op.Op == "put" && strings.HasPrefix(op.Key, "/shortcuts/"):
-			name := strings.TrimPrefix(op.Key, "/shortcuts/")
-			var sc samlidp.Shortcut
-			_ = json.Unmarshal([]byte(op.Value), &sc)
-			if _, ok := m.shortcuts[name]; ok {
-				m.touchedShortcuts[name] = true
-			}
-			m.shortcuts[name] = mShortcut{entity: sc.ServiceProviderID}
-		case op.Op == "delete" && strings.HasPrefix(op.Key, "/shortcuts/"):
-			name := strings.TrimPrefix(op.Key, "/shortcuts/")
-			if _, ok := m.shortcuts[name]; ok {
-				m.touchedShortcuts[name] = true
-			}
-			delete(m.shortcuts, name)
-		case op.Op == "put" && strings.HasPrefix(op.Key, "/sessions/"):
-			id := strings.TrimPrefix(op.Key, "/sessions/")
-			sessionPuts = append(sessionPuts, id)
-			ms := &mSession{user: credsUser, profile: -1, expire: m.now.Add(sessionLifetime), idx: len(m.sessions)}
-			if u := m.users[credsUser]; credsOK && u != nil {
-				ms.profile = u.profile
-			}
-			m.sessions[id] = ms
-		case op.Op == "delete" && strings.HasPrefix(op.Key, "/sessions/"):
-			id := strings.TrimPrefix(op.Key, "/sessions/")
-			if ms := m.sessions[id]; ms != nil {
-				ms.deleted = true
-				m.touchedSessions[id] = true
-			}
+		if op.Op == "put" || op.Op == "delete" {
+			mutated = append(mutated, op.Op+" "+op.Key)
+		}
+		if op.Op == "put" && strings.HasPrefix(op.Key, "/sessions/") {
+			sessionPuts = append(sessionPuts, strings.TrimPrefix(op.Key, "/sessions/"))
 		}
 	}
-	return sessionPuts
+	return
 }
 
 // ---------------------------------------------------------------- execution + oracle
@@ -260,6 +275,7 @@ func run(c Case, withRestarts bool) (res runResult) {
 	res.classes = map[string]bool{}
 	fix.Reset()
 	env := idpsrv.NewEnv(c.Seed)
+	env.Opts = c.Opts
 	m := newModel()
 	m.now = env.Now
 	// initial state, directly through the store
@@ -274,8 +290,8 @@ func run(c Case, withRestarts bool) (res runResult) {
 		case "put_shortcut":
 			env.SeedShortcut(s)
 		}
+		m.seed(s)
 	}
-	m.absorbSnapshot(env.Store)
 	if err := env.Start(); err != nil {
 		res.err = "samlidp.New over the seeded store failed: " + err.Error()
 		return
@@ -319,7 +335,7 @@ func run(c Case, withRestarts bool) (res runResult) {
 			continue
 		case "seed_user":
 			env.SeedUser(s.Name, s.Pw, s.Profile)
-			m.absorbSnapshotUsers(env.Store, s.Name)
+			m.seed(s)
 			m.touchedUsers[s.Name] = true
 			res.obs = append(res.obs, obs{Kind: "seed"})
 			continue
@@ -330,17 +346,12 @@ func run(c Case, withRestarts bool) (res runResult) {
 			continue
 		}
 		// ---- what the model says about this request, before it runs
-		credsUser, credsOK, credsKnown := "", false, true
+		credsUser, credsOK := "", false
 		formCreds := s.User != "" && (((s.Op == "sso" || s.Op == "launch") && s.Method == "POST") || (s.Op == "login" && s.Method != "GET"))
 		if formCreds {
 			credsUser = s.User
-			if u := m.users[s.User]; u != nil {
-				switch {
-				case u.pw == -2:
-					credsKnown = false
-				case u.pw >= 0 && idpsrv.Passwords[u.pw] == formPassword(s):
-					credsOK = true
-				}
+			if u := m.users[s.User]; u != nil && u.pw >= 0 && idpsrv.Passwords[u.pw] == formPassword(s) {
+				credsOK = true
 			}
 		}
 		cookieOK := false
@@ -364,22 +375,38 @@ func run(c Case, withRestarts bool) (res runResult) {
 			}
 		}
 		wasStale := m.staleClass
-		sessionPuts := m.absorb(s, log, credsUser, credsOK)
-		// The management API is the contract: a DELETE /sessions/{id} answered with success means
-		// that session is gone, whatever key the implementation chose to remove from the store.
-		if s.Op == "del_session" && rep.Status >= 200 && rep.Status < 300 && !stepFault {
-			if id, ok := env.CookieValue(s.Session); ok {
-				if ms := m.sessions[id]; ms != nil && !ms.deleted {
-					ms.deleted = true
-					m.touchedSessions[id] = true // "touched" = affected by a delete/expiry: makes later uses non-trivial
-					res.classes["session:deleted-by-request"] = true
-				}
-			}
+		sessionPuts, mutated, _ := m.scanLog(log)
+		clean := !m.faultSeen // no fault injected so far: store and model cannot have parted
+		delID, _ := env.CookieValue(s.Session)
+		existedBefore := m.exists(s, delID)
+		m.apply(s, rep.Status, delID)
+		if s.Op == "del_session" && rep.Status < 300 && m.sessions[delID] != nil {
+			res.classes["session:deleted-by-request"] = true
 		}
 		if m.staleClass && !wasStale {
 			res.classes["svc:overwritten-with-other-entity-or-shared-entity-deleted"] = true
 		}
-		env.NoteSessions()
+		// a session exists from the moment its id is handed out in the session cookie
+		newSession := ""
+		if v, ok := rep.Cookies["session"]; ok && v != "" && env.NoteSessionID(v) {
+			newSession = v
+			ms := &mSession{user: credsUser, profile: -1, expire: m.now.Add(sessionLifetime), idx: len(m.sessions)}
+			if u := m.users[credsUser]; credsOK && u != nil {
+				ms.profile = u.profile
+			}
+			m.sessions[v] = ms
+		}
+
+		// ---- an error reply means nothing happened: no write behind the back of a management call
+		if rep.Status >= 400 && !stepFault && len(mutated) > 0 && (strings.HasPrefix(s.Op, "put_") || strings.HasPrefix(s.Op, "del_")) {
+			fail(i, s, "request answered with status %d but the store was changed (%v)", rep.Status, mutated)
+		}
+		// ---- management reads show what the requests so far said (only while no fault was injected)
+		if clean {
+			if msg := m.judgeRead(s, rep, delID, existedBefore); msg != "" {
+				fail(i, s, "%s", msg)
+			}
+		}
 
 		// ---- exactly one well-formed reply
 		if rep.Panic != "" {
@@ -412,9 +439,12 @@ func run(c Case, withRestarts bool) (res runResult) {
 		}
 		// ---- sessions are created only by a login with the user's current password
 		for _, id := range sessionPuts {
-			if credsKnown && !credsOK {
+			if !credsOK {
 				fail(i, s, "a session (%s…) was stored although the request did not carry a user's current password (user %q, model: %s)", short(id), s.User, m.describeUser(s.User))
 			}
+		}
+		if newSession != "" && !credsOK {
+			fail(i, s, "a session cookie (%s…) was issued although the request did not carry a user's current password (user %q, model: %s)", short(newSession), s.User, m.describeUser(s.User))
 		}
 		// ---- a SAML response only for an authenticated user and a registered SP
 		o := obs{Status: rep.Status, Kind: rep.Kind, Items: -1}
@@ -430,7 +460,7 @@ func run(c Case, withRestarts bool) (res runResult) {
 			if s.Op != "sso" && s.Op != "launch" {
 				fail(i, s, "SAMLResponse emitted by a request that is neither SSO nor a shortcut launch")
 			}
-			if credsKnown && !credsOK && !cookieOK {
+			if !credsOK && !cookieOK {
 				why := "no credentials in the form"
 				if formCreds {
 					why = fmt.Sprintf("credentials user=%q pw#%d do not match (model: %s)", s.User, s.Pw, m.describeUser(s.User))
@@ -443,7 +473,7 @@ func run(c Case, withRestarts bool) (res runResult) {
 				fail(i, s, "SAMLResponse for NameID %q emitted to an unauthenticated request: %s", a.NameID, why)
 			}
 			// subject: the user as stored at login
-			okSubject := !credsKnown
+			okSubject := false
 			var wants []string
 			if credsOK {
 				u := m.users[credsUser]
@@ -638,6 +668,136 @@ func subjectMatches(a *idpsrv.Assertion, user string, profile int) bool {
 	return a.NameID == p.Email && idpsrv.AttrsEqual(a.Attrs, idpsrv.ExpectedAttrs(user, profile))
 }
 
+// exists says whether the object a get_ request names exists in the model.
+func (m *model) exists(s Step, sessionID string) bool {
+	switch s.Op {
+	case "get_user":
+		return m.users[s.Name] != nil
+	case "get_service":
+		_, ok := m.services[s.Name]
+		return ok
+	case "get_shortcut":
+		_, ok := m.shortcuts[s.Name]
+		return ok
+	case "get_session":
+		ms := m.sessions[sessionID]
+		return ms != nil && !ms.deleted
+	}
+	return false
+}
+
+func sameSet(a, b []string) bool {
+	a, b = append([]string(nil), a...), append([]string(nil), b...)
+	sort.Strings(a)
+	sort.Strings(b)
+	return strings.Join(a, "\x00") == strings.Join(b, "\x00")
+}
+
+// judgeRead compares a list / get reply with the model ("" = agrees or not judged).
+func (m *model) judgeRead(s Step, rep *idpsrv.Reply, sessionID string, existed bool) string {
+	ok := rep.Status >= 200 && rep.Status < 300
+	list := func(key string, want []string) string {
+		if !ok {
+			return fmt.Sprintf("list request answered with status %d", rep.Status)
+		}
+		var doc map[string][]string
+		if err := json.Unmarshal(rep.Body, &doc); err != nil {
+			return "list reply is not the documented JSON object: " + err.Error()
+		}
+		got, has := doc[key]
+		if !has {
+			return fmt.Sprintf("list reply lacks the %q member: %s", key, trunc(rep.Body))
+		}
+		if !sameSet(got, want) {
+			sort.Strings(want)
+			return fmt.Sprintf("list reply shows %q, the requests so far leave %q", got, want)
+		}
+		return ""
+	}
+	switch s.Op {
+	case "list_users":
+		return list("users", sortedKeys(m.users))
+	case "list_services":
+		return list("services", sortedKeys(m.services))
+	case "list_shortcuts":
+		return list("shortcuts", sortedKeys(m.shortcuts))
+	case "list_sessions":
+		if !ok {
+			return fmt.Sprintf("list request answered with status %d", rep.Status)
+		}
+		var doc map[string][]string
+		if err := json.Unmarshal(rep.Body, &doc); err != nil {
+			return "list reply is not the documented JSON object: " + err.Error()
+		}
+		listed := map[string]bool{}
+		for _, id := range doc["sessions"] {
+			listed[id] = true
+			if ms := m.sessions[id]; ms == nil || ms.deleted {
+				return fmt.Sprintf("session list shows %q, which %s", short(id), m.describeSession(id))
+			}
+		}
+		for id, ms := range m.sessions {
+			if !ms.deleted && !m.now.After(ms.expire) && !listed[id] {
+				return fmt.Sprintf("session list lacks live session #%d", ms.idx)
+			}
+		}
+	case "get_user", "get_service", "get_shortcut", "get_session":
+		if existed != ok {
+			return fmt.Sprintf("%s answered with status %d although the requests so far say the object exists=%v", s.Op, rep.Status, existed)
+		}
+		if !ok {
+			return ""
+		}
+		switch s.Op {
+		case "get_user":
+			var u samlidp.User
+			if err := json.Unmarshal(rep.Body, &u); err != nil {
+				return "user reply is not JSON: " + err.Error()
+			}
+			p := idpsrv.ProfileOf(s.Name, m.users[s.Name].profile)
+			if u.Name != s.Name || u.Email != p.Email || u.CommonName != p.CommonName || u.Surname != p.Surname || u.GivenName != p.GivenName ||
+				u.ScopedAffiliation != p.ScopedAffiliation || strings.Join(u.Groups, "\x00") != strings.Join(p.Groups, "\x00") {
+				return fmt.Sprintf("user reply %s is not the user as last put (profile %d)", trunc(rep.Body), m.users[s.Name].profile)
+			}
+			if len(u.HashedPassword) != 0 || u.PlaintextPassword != nil {
+				return "user reply carries password material"
+			}
+		case "get_service":
+			var ed saml.EntityDescriptor
+			if err := xml.Unmarshal(rep.Body, &ed); err != nil {
+				return "service reply is not an EntityDescriptor: " + err.Error()
+			}
+			mv := idpsrv.Variants[m.services[s.Name]]
+			var locs, want []string
+			for _, d := range ed.SPSSODescriptors {
+				for _, a := range d.AssertionConsumerServices {
+					locs = append(locs, a.Location)
+				}
+			}
+			for _, a := range mv.ACS {
+				want = append(want, idpsrv.ACS[a])
+			}
+			if ed.EntityID != idpsrv.Entities[mv.Entity] || !sameSet(locs, want) {
+				return fmt.Sprintf("service reply describes %q with ACS %q, last put was %q with %q", ed.EntityID, locs, idpsrv.Entities[mv.Entity], want)
+			}
+		case "get_shortcut":
+			var sc samlidp.Shortcut
+			if err := json.Unmarshal(rep.Body, &sc); err != nil {
+				return "shortcut reply is not JSON: " + err.Error()
+			}
+			w := m.shortcuts[s.Name]
+			relay := ""
+			if sc.RelayState != nil {
+				relay = *sc.RelayState
+			}
+			if sc.Name != s.Name || sc.ServiceProviderID != w.entity || (sc.RelayState != nil) != (w.relay > 0) || relay != idpsrv.RelayStates[w.relay] || sc.URISuffixAsRelayState != w.suffix {
+				return fmt.Sprintf("shortcut reply %s is not the shortcut as last put (%+v)", trunc(rep.Body), w)
+			}
+		}
+	}
+	return ""
+}
+
 func (m *model) describeUser(name string) string {
 	u := m.users[name]
 	if u == nil {
@@ -660,46 +820,6 @@ func (m *model) describeSession(id string) string {
 		return fmt.Sprintf("names session #%d, expired at %s (now %s)", ms.idx, ms.expire.Format(time.RFC3339), m.now.Format(time.RFC3339))
 	}
 	return fmt.Sprintf("names live session #%d", ms.idx)
-}
-
-// absorbSnapshot loads the seeded initial state into the model.
-func (m *model) absorbSnapshot(st *idpsrv.Store) {
-	for _, n := range st.Keys("/users/") {
-		m.absorbSnapshotUsers(st, n)
-	}
-	for _, n := range st.Keys("/services/") {
-		raw, _ := st.Raw("/services/" + n)
-		var svc samlidp.Service
-		_ = json.Unmarshal([]byte(raw), &svc)
-		m.services[n] = idpsrv.VariantOfMetadata(&svc.Metadata)
-	}
-	for _, n := range st.Keys("/shortcuts/") {
-		raw, _ := st.Raw("/shortcuts/" + n)
-		var sc samlidp.Shortcut
-		_ = json.Unmarshal([]byte(raw), &sc)
-		m.shortcuts[n] = mShortcut{entity: sc.ServiceProviderID}
-	}
-}
-
-func (m *model) absorbSnapshotUsers(st *idpsrv.Store, name string) {
-	raw, ok := st.Raw("/users/" + name)
-	if !ok {
-		delete(m.users, name)
-		return
-	}
-	var u samlidp.User
-	_ = json.Unmarshal([]byte(raw), &u)
-	u.Name = name
-	nu := &mUser{pw: -2, profile: profileOfUser(&u), hash: string(u.HashedPassword)}
-	if nu.hash == "" {
-		nu.pw = -1
-	}
-	for i, h := range idpsrv.LowCostHashes {
-		if nu.hash == h {
-			nu.pw = i
-		}
-	}
-	m.users[name] = nu
 }
 
 func clampI(i, n int) int {
@@ -948,15 +1068,16 @@ func (g *gModel) step(t *rapid.T) Step {
 	case k < 44: // put user through the API
 		s.Op = "put_user"
 		s.Name = pick(t, "user", idpsrv.UserNames)
-		s.Profile = rapid.IntRange(0, 2).Draw(t, "profile")
+		s.Profile = rapid.IntRange(0, idpsrv.NProfiles-1).Draw(t, "profile")
 		if g.costly < 2 && rapid.IntRange(0, 2).Draw(t, "with-password") == 0 {
 			s.Pw = rapid.IntRange(0, 3).Draw(t, "pw")
 			g.costly++
 		}
+		s.Bad = rapid.IntRange(0, 11).Draw(t, "bad-body") == 0
 	case k < 49: // seed user directly (low-cost hash)
 		s.Op = "seed_user"
 		s.Name = pick(t, "user", idpsrv.UserNames)
-		s.Profile = rapid.IntRange(0, 2).Draw(t, "profile")
+		s.Profile = rapid.IntRange(0, idpsrv.NProfiles-1).Draw(t, "profile")
 		s.Pw = pick(t, "pw", []int{0, 1, 2, 3, -1, 0, 1})
 	case k < 53:
 		s.Op = "del_user"
@@ -969,11 +1090,12 @@ func (g *gModel) step(t *rapid.T) Step {
 	case k < 66: // put service
 		s.Op = "put_service"
 		s.Name = pick(t, "service", idpsrv.ServiceNames)
-		s.MD = pick(t, "md", []int{0, 1, 2, 3, 0, 2, 1, 3, -1})
+		s.MD = pick(t, "md", []int{0, 1, 2, 3, 4, 5, 0, 2, 1, 3, -1})
+		s.Bad = rapid.IntRange(0, 15).Draw(t, "bad-body") == 0
 		s.Method = pick(t, "method", []string{"PUT", "POST"})
 		if excludeStale() {
 			if old, ok := g.services[s.Name]; ok && old >= 0 && s.MD >= 0 && idpsrv.Variants[old].Entity != idpsrv.Variants[s.MD].Entity {
-				s.MD = old ^ 1 // the other ACS set of the same entity
+				s.MD = old // same registration again
 			}
 		}
 	case k < 71:
@@ -992,6 +1114,7 @@ func (g *gModel) step(t *rapid.T) Step {
 		if rapid.Bool().Draw(t, "suffix-relay") {
 			s.Suffix = "y"
 		}
+		s.Bad = rapid.IntRange(0, 11).Draw(t, "bad-body") == 0
 	case k < 80:
 		s.Op = "del_shortcut"
 		s.Name = pick(t, "shortcut", idpsrv.ShortcutNames)
@@ -1013,6 +1136,21 @@ func (g *gModel) step(t *rapid.T) Step {
 	case k < 99:
 		s.Op = "clock"
 		s.Delta = pick(t, "delta", []int64{3601, 3601, 3599, 1800, 60, 7200, -1800, 3600 * 24, 1, -3601, 100, 3601})
+		var alive []int
+		for i, x := range g.sessions {
+			if !x.deleted {
+				alive = append(alive, i)
+			}
+		}
+		if len(alive) > 0 && rapid.IntRange(0, 9).Draw(t, "around-expiry") < 6 {
+			// land just before / after the expiry of one session: +-1 s and around the 180 s
+			// clock-skew tolerance that must NOT apply to session expiry
+			x := g.sessions[pick(t, "which", alive)]
+			d := pick(t, "offset", []int64{-1, 1, 1, 2, 179, 180, 181, -180, -179, 90, 3600})
+			if delta := x.at + 3600 + d - g.now; delta != 0 {
+				s.Delta = delta
+			}
+		}
 	default:
 		s.Op = "metadata"
 	}
@@ -1024,6 +1162,9 @@ func (g *gModel) step(t *rapid.T) Step {
 func (g *gModel) apply(s Step) {
 	switch s.Op {
 	case "put_user":
+		if s.Bad {
+			return
+		}
 		u := g.users[s.Name]
 		if u == nil {
 			u = &gUser{pw: -1}
@@ -1037,13 +1178,15 @@ func (g *gModel) apply(s Step) {
 	case "del_user":
 		delete(g.users, s.Name)
 	case "put_service":
-		if s.MD >= 0 {
+		if s.MD >= 0 && !s.Bad {
 			g.services[s.Name] = s.MD
 		}
 	case "del_service":
 		delete(g.services, s.Name)
 	case "put_shortcut":
-		g.shortcuts[s.Name] = s.Issuer
+		if !s.Bad {
+			g.shortcuts[s.Name] = s.Issuer
+		}
 	case "del_shortcut":
 		delete(g.shortcuts, s.Name)
 	case "del_session":
@@ -1087,22 +1230,25 @@ func maxSteps() int {
 
 func gen(t *rapid.T) Case {
 	c := Case{Seed: rapid.Uint64().Draw(t, "seed")}
+	if rapid.IntRange(0, 2).Draw(t, "vary-options") == 0 {
+		c.Opts = idpsrv.Opts{URL: rapid.IntRange(0, 2).Draw(t, "url"), Signer: rapid.Bool().Draw(t, "signer"), Cert: rapid.IntRange(0, 1).Draw(t, "cert"), Template: rapid.Bool().Draw(t, "template")}
+	}
 	g := &gModel{users: map[string]*gUser{}, services: map[string]int{}, shortcuts: map[string]int{}}
 	// initial state: mostly populated so that histories start in the middle of things
 	if rapid.IntRange(0, 9).Draw(t, "populated") < 8 {
-		nu := rapid.IntRange(1, 3).Draw(t, "nusers")
+		nu := rapid.IntRange(1, len(idpsrv.UserNames)).Draw(t, "nusers")
 		for i := 0; i < nu; i++ {
-			s := Step{Op: "seed_user", Name: idpsrv.UserNames[i], Pw: pick(t, "pw", []int{0, 1, 2, -1, 0, 1, 3}), Profile: rapid.IntRange(0, 2).Draw(t, "profile")}
+			s := Step{Op: "seed_user", Name: idpsrv.UserNames[i], Pw: pick(t, "pw", []int{0, 1, 2, -1, 0, 1, 3}), Profile: rapid.IntRange(0, idpsrv.NProfiles-1).Draw(t, "profile")}
 			c.Init = append(c.Init, s)
 			g.apply(s)
 		}
-		ns := rapid.IntRange(0, 3).Draw(t, "nservices")
+		ns := rapid.IntRange(0, len(idpsrv.ServiceNames)).Draw(t, "nservices")
 		for i := 0; i < ns; i++ {
-			s := Step{Op: "put_service", Name: idpsrv.ServiceNames[i], MD: rapid.IntRange(0, 3).Draw(t, "md"), Pw: -1}
+			s := Step{Op: "put_service", Name: idpsrv.ServiceNames[i], MD: rapid.IntRange(0, len(idpsrv.Variants)-1).Draw(t, "md"), Pw: -1}
 			c.Init = append(c.Init, s)
 			g.apply(s)
 		}
-		nc := rapid.IntRange(0, 2).Draw(t, "nshortcuts")
+		nc := rapid.IntRange(0, len(idpsrv.ShortcutNames)).Draw(t, "nshortcuts")
 		for i := 0; i < nc; i++ {
 			s := Step{Op: "put_shortcut", Name: idpsrv.ShortcutNames[i], Issuer: pick(t, "sp", []int{0, 1, 0, 1, 2}), Relay: rapid.IntRange(0, 2).Draw(t, "relay"), Pw: -1}
 			c.Init = append(c.Init, s)
@@ -1279,7 +1425,11 @@ func enumFaultPositions(_ string, emit func(Case)) {
 		{{Op: "login", Method: "POST", User: "alice", Pw: 0}, {Op: "launch", Name: "sc-a", Pw: -1, Cookie: sess0}},
 		{{Op: "launch", Name: "sc-a", User: "alice", Pw: 0}},
 		{{Op: "put_user", Name: "bob", Pw: 1, Profile: 1}, {Op: "login", Method: "POST", User: "bob", Pw: 1}},
-		{{Op: "put_service", Name: "svc-b", Pw: -1, MD: 1}, {Op: "sso", Method: "POST", User: "alice", Pw: 0, Issuer: 1, ACS: 0}},
+		{{Op: "put_service", Name: "svc-b", Pw: -1, MD: 2}, {Op: "sso", Method: "POST", User: "alice", Pw: 0, Issuer: 1, ACS: 2}},
+		{{Op: "put_service", Name: "svc-a", Pw: -1, MD: 3}, {Op: "sso", Method: "POST", User: "alice", Pw: 0, Issuer: 1, ACS: 3}, {Op: "sso", Method: "POST", User: "alice", Pw: 0, Issuer: 0, ACS: 0}},
+		{{Op: "del_service", Name: "svc-a", Pw: -1}, {Op: "sso", Method: "POST", User: "alice", Pw: 0, Issuer: 0, ACS: 0}},
+		{{Op: "put_shortcut", Name: "sc-a", Pw: -1, Issuer: 1}, {Op: "del_shortcut", Name: "sc-a", Pw: -1}, {Op: "login", Method: "POST", User: "alice", Pw: 0}, {Op: "launch", Name: "sc-a", Pw: -1, Cookie: sess0}},
+		{{Op: "put_user", Name: "alice", Pw: -1, Profile: 2}, {Op: "del_user", Name: "alice", Pw: -1}, {Op: "login", Method: "POST", User: "alice", Pw: 0}},
 		{{Op: "login", Method: "POST", User: "alice", Pw: 0}, {Op: "del_session", Pw: -1, Session: sess0}, {Op: "sso", Method: "GET", Pw: -1, Issuer: 0, ACS: 0, Cookie: sess0}},
 	}
 	for _, h := range histories {
@@ -1292,12 +1442,175 @@ func enumFaultPositions(_ string, emit func(Case)) {
 	}
 }
 
+// enumExpiryBoundary: a session is created, the clock lands at expiry + d for every d of a
+// grid around the boundary (+-1 s, around the 180 s MaxClockSkew that must not apply here, and
+// going back in time), then the cookie is presented to /sso, a shortcut and /login.
+func enumExpiryBoundary(_ string, emit func(Case)) {
+	init := []Step{{Op: "seed_user", Name: "alice", Pw: 0, Profile: 3}, {Op: "put_service", Name: "svc-a", Pw: -1, MD: 4}, {Op: "put_shortcut", Name: "sc-x", Pw: -1, Issuer: 0, Relay: 1}}
+	c0 := Cookie{Kind: "session", Idx: 0}
+	uses := []Step{
+		{Op: "sso", Method: "GET", Pw: -1, Issuer: 0, ACS: 0, Cookie: c0},
+		{Op: "sso", Method: "POST", Pw: -1, Issuer: 0, ACS: 1, Cookie: c0},
+		{Op: "launch", Name: "sc-x", Method: "GET", Pw: -1, Cookie: c0, Suffix: "sfx"},
+		{Op: "login", Method: "GET", Pw: -1, Cookie: c0},
+	}
+	logins := []Step{{Op: "login", Method: "POST", User: "alice", Pw: 0}, {Op: "sso", Method: "POST", User: "alice", Pw: 0, Issuer: 0, ACS: 0}}
+	for _, d := range []int64{-3601, -181, -180, -179, -2, -1, 1, 2, 60, 179, 180, 181, 3599, 3600, 3601} {
+		for _, lg := range logins {
+			for _, use := range uses {
+				for _, split := range []bool{false, true} {
+					steps := []Step{lg}
+					if split {
+						steps = append(steps, Step{Op: "clock", Pw: -1, Delta: 3000}, Step{Op: "clock", Pw: -1, Delta: 600 + d})
+					} else {
+						steps = append(steps, Step{Op: "clock", Pw: -1, Delta: 3600 + d})
+					}
+					steps = append(steps, use, Step{Op: "clock", Pw: -1, Delta: -d - 1}, use)
+					emit(Case{Seed: 13, Init: init, Steps: steps, Restarts: []int{len(steps) - 3}, Opts: idpsrv.Opts{URL: int(d&1) * 2, Template: d%3 == 0}})
+				}
+			}
+		}
+	}
+}
+
+// enumEscapedNames: user, service and shortcut names (and, being base64, session ids) that need
+// escaping in a URL path or a form go through the whole life cycle: put, get, list, use, delete,
+// use again - and a name that only differs by its escaping must stay a different object.
+func enumEscapedNames(_ string, emit func(Case)) {
+	names := []string{"a/b", "a b", "a+b", "a%2Fb", "a%20b", "a?b=c", "a#b", "\u00fc\u00f1\u00ef", "a;b", "a:b@c", "a&b=c", "x%", "~a.b", "a%252Fb"}
+	c0 := Cookie{Kind: "session", Idx: 0}
+	for i, n := range names {
+		other := names[(i+1)%len(names)]
+		for _, md := range []int{0, 4} {
+			steps := []Step{
+				{Op: "put_user", Name: n, Pw: -1, Profile: 3},
+				{Op: "seed_user", Name: n, Pw: 1, Profile: 1},
+				{Op: "put_user", Name: n, Pw: -1, Profile: 3},
+				{Op: "get_user", Name: n, Pw: -1},
+				{Op: "get_user", Name: other, Pw: -1},
+				{Op: "list_users", Pw: -1},
+				{Op: "put_service", Name: n, Pw: -1, MD: md},
+				{Op: "get_service", Name: n, Pw: -1},
+				{Op: "list_services", Pw: -1},
+				{Op: "put_shortcut", Name: n, Pw: -1, Issuer: 0, Suffix: "y"},
+				{Op: "get_shortcut", Name: n, Pw: -1},
+				{Op: "list_shortcuts", Pw: -1},
+				{Op: "sso", Method: "POST", User: n, Pw: 1, Issuer: 0, ACS: 0},
+				{Op: "launch", Name: n, Method: "GET", Pw: -1, Cookie: c0, Suffix: "s/f x"},
+				{Op: "get_session", Pw: -1, Session: c0},
+				{Op: "list_sessions", Pw: -1},
+				{Op: "del_shortcut", Name: other, Pw: -1},
+				{Op: "del_service", Name: other, Pw: -1},
+				{Op: "del_user", Name: other, Pw: -1},
+				{Op: "launch", Name: n, Method: "GET", Pw: -1, Cookie: c0},
+				{Op: "del_session", Pw: -1, Session: c0},
+				{Op: "sso", Method: "GET", Pw: -1, Issuer: 0, ACS: 0, Cookie: c0},
+				{Op: "launch", Name: n, Method: "GET", Pw: -1, Cookie: c0},
+				{Op: "login", Method: "POST", User: n, Pw: 1},
+				{Op: "del_shortcut", Name: n, Pw: -1},
+				{Op: "launch", Name: n, Method: "GET", Pw: -1, Cookie: Cookie{Kind: "session", Idx: 1}},
+				{Op: "del_service", Name: n, Pw: -1},
+				{Op: "sso", Method: "GET", Pw: -1, Issuer: 0, ACS: 0, Cookie: Cookie{Kind: "session", Idx: 1}},
+				{Op: "del_user", Name: n, Pw: -1},
+				{Op: "login", Method: "POST", User: n, Pw: 1},
+				{Op: "list_users", Pw: -1},
+			}
+			emit(Case{Seed: 14 + uint64(i), Steps: steps, Restarts: []int{13, 22}})
+			var all []int
+			for p := range steps {
+				all = append(all, p)
+			}
+			emit(Case{Seed: 14 + uint64(i), Steps: steps, Restarts: all, Opts: idpsrv.Opts{URL: 2, Signer: true, Cert: 1}})
+		}
+	}
+}
+
+// enumOverwrite: every stored object is put as A and then put again as B (all pairs), read
+// back, used, deleted and used again: what counts after an acknowledged request is what the
+// request said, not what was there before.
+func enumOverwrite(_ string, emit func(Case)) {
+	c0 := Cookie{Kind: "session", Idx: 0}
+	login := Step{Op: "login", Method: "POST", User: "alice", Pw: 0}
+	base := []Step{{Op: "seed_user", Name: "alice", Pw: 0, Profile: 0}}
+	// shortcuts: target entity x relay-state settings
+	for a := 0; a < 3; a++ {
+		for b := 0; b < 3; b++ {
+			for _, rs := range [][2]int{{0, 1}, {2, 0}} {
+				init := append(append([]Step(nil), base...), Step{Op: "put_service", Name: "svc-a", Pw: -1, MD: 0}, Step{Op: "put_service", Name: "svc-b", Pw: -1, MD: 2})
+				steps := []Step{login,
+					{Op: "put_shortcut", Name: "sc-x", Pw: -1, Issuer: a, Relay: rs[0], Suffix: "y"},
+					{Op: "launch", Name: "sc-x", Method: "GET", Pw: -1, Cookie: c0, Suffix: "sfx"},
+					{Op: "put_shortcut", Name: "sc-x", Pw: -1, Issuer: b, Relay: rs[1]},
+					{Op: "get_shortcut", Name: "sc-x", Pw: -1},
+					{Op: "launch", Name: "sc-x", Method: "GET", Pw: -1, Cookie: c0},
+					{Op: "put_shortcut", Name: "sc-x", Pw: -1, Issuer: a, Bad: true},
+					{Op: "launch", Name: "sc-x", Method: "GET", Pw: -1, Cookie: c0},
+					{Op: "del_shortcut", Name: "sc-x", Pw: -1},
+					{Op: "list_shortcuts", Pw: -1},
+					{Op: "launch", Name: "sc-x", Method: "GET", Pw: -1, Cookie: c0},
+				}
+				emit(Case{Seed: 15, Init: init, Steps: steps, Restarts: []int{5, 9}})
+			}
+		}
+	}
+	// services: metadata variants
+	nv := len(idpsrv.Variants)
+	for a := 0; a < nv; a++ {
+		for b := 0; b < nv; b++ {
+			va, vb := idpsrv.Variants[a], idpsrv.Variants[b]
+			sso := func(v idpsrv.MDVariant, k int) Step {
+				return Step{Op: "sso", Method: "GET", Pw: -1, Issuer: v.Entity, ACS: v.ACS[k%len(v.ACS)], Cookie: c0}
+			}
+			steps := []Step{login,
+				{Op: "put_service", Name: "svc-a", Pw: -1, MD: a},
+				sso(va, 0),
+				{Op: "put_service", Name: "svc-a", Pw: -1, MD: b, Method: "POST"},
+				{Op: "get_service", Name: "svc-a", Pw: -1},
+				sso(va, 0), sso(va, 1), sso(vb, 0), sso(vb, 1),
+				{Op: "put_service", Name: "svc-a", Pw: -1, MD: a, Bad: true},
+				sso(va, 0), sso(vb, 0),
+				{Op: "del_service", Name: "svc-a", Pw: -1},
+				{Op: "list_services", Pw: -1},
+				sso(va, 0), sso(vb, 0),
+			}
+			emit(Case{Seed: 16, Init: base, Steps: steps, Restarts: []int{5, 11, 15}})
+		}
+	}
+	// users: profile x password presence
+	for a := 0; a < idpsrv.NProfiles; a++ {
+		for b := 0; b < idpsrv.NProfiles; b++ {
+			for _, seedPw := range []int{1, -1} {
+				init := []Step{{Op: "seed_user", Name: "bob", Pw: seedPw, Profile: a}, {Op: "put_service", Name: "svc-a", Pw: -1, MD: 4}}
+				try := func(pw int) Step {
+					return Step{Op: "sso", Method: "POST", User: "bob", Pw: pw, Issuer: 0, ACS: 0}
+				}
+				steps := []Step{try(1),
+					{Op: "put_user", Name: "bob", Pw: -1, Profile: b},
+					{Op: "get_user", Name: "bob", Pw: -1},
+					try(1), try(3), try(-1),
+					{Op: "sso", Method: "GET", Pw: -1, Issuer: 0, ACS: 1, Cookie: c0},
+					{Op: "put_user", Name: "bob", Pw: -1, Profile: a, Bad: true},
+					try(1),
+					{Op: "del_user", Name: "bob", Pw: -1},
+					{Op: "list_users", Pw: -1},
+					try(1),
+					{Op: "sso", Method: "GET", Pw: -1, Issuer: 0, ACS: 1, Cookie: c0},
+					{Op: "put_user", Name: "bob", Pw: -1, Profile: b},
+					try(1), try(3),
+				}
+				emit(Case{Seed: 17, Init: init, Steps: steps, Restarts: []int{3, 11}})
+			}
+		}
+	}
+}
+
 var prop = &pbt.Prop[Case]{
 	ID: "C19",
-	Rule: "cases: a seeded store (0-3 users with low-cost bcrypt hashes or none, 0-3 services over 4 metadata variants = 2 entity IDs x 2 ACS sets, 0-2 shortcuts) plus a history of 1..25 (thorough 60) steps over " +
-		"{put/seed/delete/get/list user, put/delete/get/list service, put/delete/get/list shortcut, login, SSO GET/POST with right/wrong/absent credentials and live/expired/deleted/forged/no cookie, shortcut launch, " +
-		"delete/get/list session, clock +-, metadata}, 0-3 store faults (not-found / I/O error at the n-th operation) and a set of restart positions; every case is run without and with its restarts. " +
-		"Exhaustive: all histories of length <= 3 (thorough 4) over a 17-action reduced alphabet from a populated and (length <= 2, thorough 3) an empty store, each with a restart at every position and before the last step. " +
+	Rule: "cases: a seeded store (0-4 users with low-cost bcrypt hashes or none, 0-4 services over 6 metadata variants = 2 entity IDs x ACS sets / descriptor layouts, 0-3 shortcuts; names include ones needing path/form escaping) plus a history of 1..25 (thorough 60) steps over " +
+		"{put/seed/delete/get/list user, put/delete/get/list service, put/delete/get/list shortcut (also with malformed bodies), login, SSO GET/POST with right/wrong/absent credentials and live/expired/deleted/forged/no cookie, shortcut launch, " +
+		"delete/get/list session, clock +- (also landing +-1 s / +-180 s around a session's expiry), metadata}, varied samlidp.Options, 0-3 store faults (not-found / I/O error at the n-th operation) and a set of restart positions; every case is run without and with its restarts. " +
+		"Exhaustive: all histories of length <= 3 (thorough 4) over a 17-action reduced alphabet from a populated and (length <= 2, thorough 3) an empty store, each with a restart at every position and before the last step; password-replacement grid; a fault at every store operation of 14 canonical histories; " +
+		"session-expiry boundary grid; put-A-then-put-B grids for shortcuts, services and users; life cycle of 14 names needing escaping. " +
 		"non-trivial: the history contains an SSO or shortcut launch after a delete / overwrite / expiry of the user, session, service or shortcut it needs, or after an injected store fault. distinct: sha256 of the JSON case.",
 	Gen:   gen,
 	Check: check,
@@ -1307,13 +1620,18 @@ var prop = &pbt.Prop[Case]{
 		{Name: "histories-reduced-alphabet-empty-store", Each: enumEmpty},
 		{Name: "password-replacement-grid", Each: enumPasswordReplacement},
 		{Name: "fault-at-every-store-operation-of-canonical-histories", Each: enumFaultPositions},
+		{Name: "session-expiry-boundary-grid", Each: enumExpiryBoundary},
+		{Name: "put-A-then-put-B-read-use-delete-use", Each: enumOverwrite},
+		{Name: "names-needing-escaping-life-cycle", Each: enumEscapedNames},
 	},
 	Assumptions: []string{
 		"requests are served by calling the server's http.Handler directly with a counting ResponseWriter (no network)",
 		"injected store faults fail the operation without performing it; start-up (samlidp.New) is not faulted",
 		"the session lifetime is one hour on the library clock saml.TimeNow (cookie Max-Age 3600); the instant exactly at expiry is not judged",
 		"AuthnRequests are built by a library saml.ServiceProvider at the instant of the request; assertions are read with the fixture SP key",
-		"what is stored is what passed through the harness-owned Store wrapper (shadow map), cross-checked against MemoryStore on every Get/List",
+		"the reference model changes as the requests say (success = documented effect, error status = no effect); the store log of the harness-owned wrapper serves only the what-is-stored clauses and fault bookkeeping; MemoryStore is cross-checked against the wrapper's shadow map on every Get/List",
+		"a deleted user's still-stored sessions stay valid: the property ties an assertion to a stored unexpired session created by a login, not to the user record",
+		"management reads (list / get) are compared with the model only while no fault has been injected",
 		"when two stored services share an entity ID with different metadata either registration is a valid target and the run-vs-restarted-run comparison stops at the first reply that differs there",
 	},
 }
@@ -1321,5 +1639,3 @@ var prop = &pbt.Prop[Case]{
 func TestCheck(t *testing.T) { pbt.Run(t, prop) }
 
 func FuzzCheck(f *testing.F) { pbt.Fuzz(f, prop) }
-
-var _ = saml.HTTPPostBinding
